@@ -170,8 +170,30 @@ func RunCheck(prop string, opt CheckOptions) *CheckResult {
 	}
 	cfg := Config{RepoDir: opt.RepoDir, Pkgs: pc.Packages, MirrorDir: filepath.Join(opt.VerifDir, "contracts"), StdlibDir: filepath.Join(opt.VerifDir, "stdlib")}
 	var family []RouteSet
+	var famErr error
 	familyDir := ""
 	var e *Engine
+	if pc.Family == "security" {
+		scratch, terr := os.MkdirTemp("", "govc-family-")
+		if terr != nil {
+			return engineError("%v", terr)
+		}
+		defer os.RemoveAll(scratch)
+		sfam := SecurityFamily()
+		mod, gerr := GenerateSecurityFamily(opt.RepoDir, sfam, scratch)
+		if gerr != nil {
+			// the generator of the current tree fails on a member of the family: that is reported, and
+			// the repository packages of the property are still verified on their own
+			famErr = gerr
+		} else {
+			familyDir = mod
+			cfg.ModDir = mod
+			for _, q := range sfam {
+				cfg.Extra = append(cfg.Extra, ExtraPkg{Dir: filepath.Join(mod, q.ID), Pattern: "./" + q.ID})
+				family = append(family, RouteSet{ID: q.ID, Templates: []RouteTemplate{{Path: fmt.Sprintf("security alternatives %v", q.Alts)}}})
+			}
+		}
+	}
 	if pc.Family == "router" {
 		// kind B: the generator of the current tree is built and run on every member of the family;
 		// the generated packages live in a scratch module that is removed when the check ends
@@ -219,6 +241,9 @@ func RunCheck(prop string, opt CheckOptions) *CheckResult {
 		fc        *FuncContract
 	}
 	var reachFails []reachFail
+	if famErr != nil {
+		reachFails = append(reachFails, reachFail{prop + "/family", "the generator of the current tree fails on a member of the enumerated family: " + famErr.Error(), nil})
+	}
 	samples := []any{}
 	if err != nil {
 		// the tree does not load (type errors in code or contracts): every claimed function is out of reach
@@ -237,7 +262,15 @@ func RunCheck(prop string, opt CheckOptions) *CheckResult {
 		var fcs []*FuncContract
 		for _, cs := range e.Sets {
 			if familyDir != "" && !strings.HasPrefix(cs.PkgDir, familyDir) {
-				continue // repository packages loaded beside the family only supply assumed contracts
+				own := false
+				for _, p := range pc.Packages {
+					if cs.PkgDir == filepath.Join(opt.RepoDir, p) {
+						own = true
+					}
+				}
+				if !own {
+					continue // repository packages loaded beside the family only supply assumed contracts
+				}
 			}
 			for _, fc := range cs.AllFuncs() {
 				if fc.Extern {
